@@ -28,6 +28,8 @@ def run(P, R, tier):
     from ..engines import dimrun
     n, rets = dimrun.route(P, R, ["ls.norm", "ls.raw", "ls.machines"], rules=["DIM.", "EXT."], where_prefix=["linear_scoring:"])
     R.floor("DIM/EXT obligations (linear scoring)", n, 6)
+    from ..engines import memo, own as owneng
+    memo.check_class(P, R, owneng.Own(P), "GMMMachine")  # the UBM's derived state used by the score must follow its parameters
     f = P.func(KEY)
     R.analysed(f)
     du = get_defuse(f, P)
